@@ -543,11 +543,62 @@ pub fn run(line: &str) -> Obs {
             let parser = t.usize();
             let kind = t.usize();
             let n = t.usize();
-            let (a, v) = if kind >= 200 { frag_single(parser, kind - 200, n) } else if kind >= 100 { frag_sweep(parser, kind - 100, n) } else { long_case(parser, kind, n) };
+            let (a, v) = if kind == 300 { codepoint_sweep(parser, n) } else if kind >= 200 { frag_single(parser, kind - 200, n) } else if kind >= 100 { frag_sweep(parser, kind - 100, n) } else { long_case(parser, kind, n) };
             Obs::with(a, v)
         }
         other => panic!("unknown C16 request {other}"),
     }
+}
+
+// ---------------------------------------------------------------- every code point in a sign / operand position
+
+/// `long <parser> 300 <plane>`: EVERY code point of Unicode plane `plane` (0..=16) is placed where a sign, a digit or a
+/// letter could stand — `x^2 + C3`, `4x^C2`, `Cx`, `xC`, `2Cx`, `x^2C+ 1`.  White space (char::is_whitespace) must make
+/// no difference; a character that is neither alphanumeric nor one of the grammar's symbols has no arithmetic meaning
+/// and must make the parser refuse the text (never a panic, never a polynomial: a code point silently read as `-`, the
+/// placeholder of a normalisation pass, is found here whatever it is — D32 was `@`, seed C16-s5 U+E02D).
+fn codepoint_sweep(parser: usize, plane: usize) -> (String, Result<(), String>) {
+    let parse_ok = |text: &str| -> Option<bool> {
+        if parser == 1 {
+            catch(|| parse_simple_polynomial(text).is_ok())
+        } else {
+            catch(|| parse_intermediate_polynomial(text).is_ok())
+        }
+    };
+    let templates: [(&str, &str); 6] = [("x^2 + ", "3"), ("4x^", "2"), ("", "x"), ("x", ""), ("2", "x"), ("x^2", "+ 1")];
+    let mut tried = 0usize;
+    let mut verdict: Result<(), String> = Ok(());
+    'outer: for cp in (plane as u32 * 0x10000)..((plane as u32 + 1) * 0x10000) {
+        let Some(c) = char::from_u32(cp) else { continue };
+        if c.is_alphanumeric() || "+-./^".contains(c) {
+            continue;
+        }
+        for (pre, post) in templates {
+            let text = format!("{pre}{c}{post}");
+            tried += 1;
+            match parse_ok(&text) {
+                None => {
+                    verdict = Err(format!("panic on `{pre}<U+{cp:04X}>{post}`"));
+                    break 'outer;
+                }
+                Some(ok) => {
+                    if c.is_whitespace() {
+                        let plain = format!("{pre}{post}");
+                        if parse_ok(&plain) != Some(ok) {
+                            verdict = Err(format!("the white-space character U+{cp:04X} changes the answer for `{pre}{post}`"));
+                            break 'outer;
+                        }
+                    } else if ok {
+                        verdict = Err(format!(
+                            "`{pre}<U+{cp:04X}>{post}` is accepted although U+{cp:04X} is neither alphanumeric, white space nor a symbol of the grammar: a character without arithmetic meaning was dropped or read as something else"
+                        ));
+                        break 'outer;
+                    }
+                }
+            }
+        }
+    }
+    (format!("swept {tried}"), verdict)
 }
 
 // ---------------------------------------------------------------- very long texts
@@ -1179,6 +1230,11 @@ pub fn generate(seed: u64, thorough: bool, emit: &mut dyn FnMut(String)) {
             emit(format!("long 1 {kind} {n}"));
             emit(format!("long 2 {kind} {n}"));
         }
+    }
+    // every code point of every plane in sign / operand positions (oracle only)
+    for plane in 0..=16usize {
+        emit(format!("long 1 300 {plane}"));
+        emit(format!("long 2 300 {plane}"));
     }
     if big {
         for (kind, n) in [(0usize, 65536usize), (0, 100000), (3, 1000000), (11, 1000000), (18, 250000), (2, 1000000)] {
